@@ -99,6 +99,7 @@ var verifC18Queries = []string{
 	"select median(distinct a), listagg(a, %s) within group (order by b desc nulls last), userfn(a, %s) from t as t1, u as u1 where t1.a = u1.a",
 	"select %s from stdin",
 	"select - -1, - - -a, -(-2), ! !true, +a, - +1 from t",
+	"select * from t natural left join u natural right outer join v full outer join w on v.a = w.a left join x using (a)",
 }
 
 // The canonical printed form of each query above, written by hand from the source: the same tokens
@@ -125,6 +126,7 @@ var verifC18Canon = []string{
 	"SELECT MEDIAN(DISTINCT a), LISTAGG(a, %s) WITHIN GROUP (ORDER BY b DESC NULLS LAST), USERFN(a, %s) FROM t AS t1, u AS u1 WHERE t1.a = u1.a",
 	"SELECT %s FROM STDIN",
 	"SELECT - -1, - - -a, -(-2), ! !TRUE, +a, - +1 FROM t",
+	"SELECT * FROM t NATURAL LEFT JOIN u NATURAL RIGHT OUTER JOIN v FULL OUTER JOIN w ON v.a = w.a LEFT JOIN x USING (a)",
 }
 
 func verifFmt1(q, lit string) string {
